@@ -1058,6 +1058,59 @@ Proof.
 Qed.
 Print Assumptions C08_ubj_ubj.
 
+(* ---------- C17 for the UBJSON parser ---------- *)
+(* After every document the reference accepts, Parse leaves the parser in its
+   initial state: state stack, valueState stack (the element type of typed
+   containers), length stack, token buffer, marker and error field are those
+   of uparser0.  (Only the cached BaseType up_vtype of the last container may
+   differ; it is written before it is read.) *)
+Section UbjIdle.
+  Import Ubjson.ConformanceProofs.
+
+  Theorem C17_ubj_parser_idle : forall b v, all_bytes b = true -> (zlen b <=? MaxInt64) = true ->
+    no_huge_zero_typed b = true -> ubj_decode b = RValue v [] ->
+    exists evs p, urun_parse None b = Ok (evs, unilE, p) /\ same_stacks uparser0 p /\
+                  contract_ok evs = true.
+  Proof.
+    intros b v Hb _ Hz H. unfold ubj_decode in H. unfold no_huge_zero_typed in Hz.
+    destruct (top_value _ b v [] H Hb (sink0 None) eq_refl) as (t & n & vt & Hwf & Hcv & Hbud & _ & Hreach).
+    change (zlen (@nil Z)) with 0 in Hbud. rewrite ztc_nil in Hbud.
+    assert (Hne : b <> []) by (intros ->; discriminate H).
+    exists (flatten t), (uset_vtype uparser0 vt).
+    split; [|split; [apply same_stacks_vtype|rewrite contract_flatten; exact Hwf]].
+    unfold urun_parse, up_parse.
+    replace (2 * length b + 2)%nat with (S (S (2 * length b))) by lia.
+    rewrite ufeed_S. destruct (zlen b >? 0) eqn:Ez; [|pose proof (nonempty_pos b Hne); lia].
+    set (F := ufeed_fuel uparser0 b).
+    assert (HF : (n + 1 <= F)%nat).
+    { unfold F, ufeed_fuel. change (length (up_stack uparser0)) with 0%nat.
+      assert (HK : Z.of_nat 8000 = 8000) by (vm_compute; reflexivity).
+      unfold zlen in *. lia. }
+    replace F with (S (n + (F - S n)))%nat by lia.
+    rewrite ufeed_until_S, Hreach. cbn [ufu_cont orb]. rewrite unil_nil.
+    rewrite ufeed_S. change (zlen (@nil Z) >? 0) with false. cbv iota. rewrite unil_nil.
+    change (ufin (uset_vtype uparser0 vt) (sadd (sink0 None) (flatten t)))
+      with (uset_vtype uparser0 vt, sadd (sink0 None) (flatten t), unilE).
+    cbv beta iota. rewrite sadd_log. reflexivity.
+  Qed.
+End UbjIdle.
+Print Assumptions C17_ubj_parser_idle.
+
+(* a simple sufficient condition for the guard: no byte "$" (36) in the
+   document - no typed containers and no "$" in strings, keys or numbers *)
+Lemma guard_no_dollar : forall b, forallb (fun x => negb (x =? 36)) b = true ->
+  no_huge_zero_typed b = true.
+Proof.
+  intros b H. unfold Ubjson.ConformanceProofs.no_huge_zero_typed.
+  assert (Hz : Ubjson.ConformanceProofs.ztc b = 0).
+  { induction b as [|x r IH]; [reflexivity|]. cbn [forallb] in H. apply andb_true_iff in H as [Hx Hr].
+    rewrite Ubjson.ConformanceProofs.ztc_cons, (IH Hr).
+    unfold Ubjson.ConformanceProofs.zt_local. destruct r as [|t [|c r']]; try reflexivity.
+    replace (x =? mType) with false by (unfold mType; lia). reflexivity. }
+  rewrite Hz. pose proof (Cbor.ConformanceProofs.zlen_nonneg b). lia.
+Qed.
+Print Assumptions guard_no_dollar.
+
 (* ---------- finiteness of the floats of a value (side condition of the JSON encoder) ---------- *)
 Definition cnum_finite (n : cnum) : bool :=
   match n with
@@ -1126,7 +1179,7 @@ Section JsonCompose.
     if ((w =? 32) || (w =? 64)) && in_u w bits && negb (nonfinite w bits) then ffmt w bits else [48].
 
   Lemma ffmt_g_chars : forall w b, Forall (fun c => In c fchars) (ffmt_g w b).
-  Proof.
+  Proof using ffmt_chars. clear ffmt_number pf_radix pf_ok. try clear fimg; try clear fbits_r; try clear ffmt; try clear pf.
     intros w b. unfold ffmt_g.
     destruct (((w =? 32) || (w =? 64)) && in_u w b && negb (nonfinite w b)) eqn:E.
     - apply andb_true_iff in E as [E E3]. apply andb_true_iff in E as [E1 E2].
@@ -1136,19 +1189,19 @@ Section JsonCompose.
 
   Lemma float_text_g cfg w bits : w = 32 \/ w = 64 -> in_u w bits = true ->
     float_text ffmt_g cfg w bits = float_text ffmt cfg w bits.
-  Proof.
+  Proof using. clear ffmt_number ffmt_chars pf_radix pf_ok. try clear fimg; try clear fbits_r; try clear ffmt; try clear pf.
     intros Hw Hu. unfold float_text. destruct (nonfinite w bits) eqn:N; [reflexivity|].
     unfold ffmt_g. rewrite N, Hu. replace ((w =? 32) || (w =? 64)) with true by lia. reflexivity.
   Qed.
 
   Lemma scalar_text_g cfg s : scalar_ok s = true -> scalar_text ffmt_g cfg s = scalar_text ffmt cfg s.
-  Proof.
+  Proof using. clear ffmt_number ffmt_chars pf_radix pf_ok. try clear fimg; try clear fbits_r; try clear ffmt; try clear pf.
     destruct s as [|b|s|k z]; try reflexivity.
     destruct k; try reflexivity; cbn [scalar_text scalar_ok nkind_ok]; intro H; apply float_text_g; auto.
   Qed.
 
   Lemma tree_text_g cfg : forall t, wf_tree t = true -> tree_text ffmt_g cfg t = tree_text ffmt cfg t.
-  Proof.
+  Proof using. clear ffmt_number ffmt_chars pf_radix pf_ok. try clear fimg; try clear fbits_r; try clear ffmt; try clear pf.
     induction t as [s r|len bt es IH|len bt ms IH|bt es|bt ms] using tree_ind'; intro Hw.
     - cbn [tree_text wf_tree] in *. apply scalar_text_g. exact Hw.
     - rewrite wf_arr in Hw. apply andb_true_iff in Hw as [_ Hw]. cbn [tree_text]. do 3 f_equal.
@@ -1169,7 +1222,7 @@ Section JsonCompose.
     (ignore_invalid cfg = true \/ tree_finite t = true) ->
     json_run cfg ffmt (jenc0 None) (flatten t) 0 = JRun e' None ->
     all_bytes (w_bytes (je_w e')) = true.
-  Proof.
+  Proof using ffmt_chars. clear ffmt_number pf_radix pf_ok. try clear fimg; try clear fbits_r; try clear ffmt; try clear pf.
     intros cfg t e' Hw Hfin E.
     destruct (json_enc_tree_text ffmt cfg t Hfin (jenc0 None) 0%nat eq_refl) as (e1 & E1 & _ & _ & _ & B1).
     rewrite E in E1. inversion E1; subst e1.
@@ -1195,7 +1248,7 @@ Section JsonCompose.
       jrun_parse pf None (w_bytes (je_w e')) = Ok (evs, jpnil, p) /\
       stream_tree evs = Some t' /\ wf_tree t' = true /\ cv (value_of t') = jimg cfg t /\
       forall cs, concat cs = w_bytes (je_w e') -> exists p', jrun_chunks pf None cs = Ok (evs, jpnil, p').
-  Proof.
+  Proof using ffmt_number ffmt_chars pf_radix pf_ok. try clear fimg; try clear fbits_r; try clear ffmt; try clear pf.
     intros cfg t Hw Hfin.
     destruct (C07_json_strconv ffmt pf fimg fbits_r ffmt_number ffmt_chars pf_radix cfg t Hw Hfin) as (e' & E & D).
     pose proof (json_out_bytes cfg t e' Hw Hfin E) as Hb.
@@ -1209,7 +1262,7 @@ Section JsonCompose.
   (* ---------- chunk independence of an accepted Parse ---------- *)
   Lemma json_chunks_same b evs p : jrun_parse pf None b = Ok (evs, jpnil, p) ->
     forall cs, concat cs = b -> exists p', jrun_chunks pf None cs = Ok (evs, jpnil, p').
-  Proof.
+  Proof using. clear ffmt_number ffmt_chars pf_radix pf_ok. try clear fimg; try clear fbits_r; try clear ffmt; try clear pf.
     intros Hrun cs Hc. pose proof (Json.ChunkProofs.C02_json_entry pf None cs) as H.
     rewrite Hc, Hrun in H. destruct (jrun_chunks pf None cs) as [[[ev2 e2] p2]| | |]; try contradiction.
     cbn [Json.ChunkProofs.same_jobs] in H. destruct H as [<- <-]. exists p2. reflexivity.
@@ -1218,7 +1271,7 @@ Section JsonCompose.
   (* what C04 gives for an accepted document, with the events as a tree *)
   Lemma json_accept_tree b v : all_bytes b = true -> json_decode pf b = RValue v [] ->
     exists t p, jrun_parse pf None b = Ok (flatten t, jpnil, p) /\ wf_tree t = true /\ cv (value_of t) = v.
-  Proof.
+  Proof using pf_ok. clear ffmt_number ffmt_chars pf_radix. try clear fimg; try clear fbits_r; try clear ffmt; try clear pf.
     intros Hb Hd. destruct (Json.SpecProofs.C04_accept_events pf b v pf_ok Hd Hb) as (t & p & Hrun & _ & Hw & Hv).
     eauto.
   Qed.
@@ -1230,7 +1283,7 @@ Section JsonCompose.
       wf_tree t' = true /\ cv (value_of t') = v /\
       cbor_encode (flatten t') = Some out /\ cbor_decode out = RValue v [] /\
       forall cs, concat cs = b -> exists p', jrun_chunks pf None cs = Ok (flatten t', jpnil, p').
-  Proof.
+  Proof using pf_ok. clear ffmt_number ffmt_chars pf_radix. try clear fimg; try clear fbits_r; try clear ffmt; try clear pf.
     intros b v Hb Hsz Hd. destruct (json_accept_tree b v Hb Hd) as (t & p & Hrun & Hwf & Hcv).
     assert (Hsm : cbor_small t = true).
     { apply (lim_cbor_small t (2 ^ 63)); [lia|exact Hwf|]. rewrite Hcv. eapply json_decode_lim; eassumption. }
@@ -1245,7 +1298,7 @@ Section JsonCompose.
       wf_tree t' = true /\ cv (value_of t') = v /\
       ubj_encode (flatten t') = Some out /\ ubj_decode out = RValue (ubj_img t') [] /\
       forall cs, concat cs = b -> exists p', jrun_chunks pf None cs = Ok (flatten t', jpnil, p').
-  Proof.
+  Proof using pf_ok. clear ffmt_number ffmt_chars pf_radix. try clear fimg; try clear fbits_r; try clear ffmt; try clear pf.
     intros b v Hb Hsz Hd. destruct (json_accept_tree b v Hb Hd) as (t & p & Hrun & Hwf & Hcv).
     assert (Hsm : ubj_small t = true).
     { apply (lim_ubj_small t (2 ^ 63)); [lia|exact Hwf|]. rewrite Hcv. eapply json_decode_lim; eassumption. }
@@ -1263,7 +1316,7 @@ Section JsonCompose.
     exists e', json_run cfg ffmt (jenc0 None) (flatten t) 0 = JRun e' None /\
       all_bytes (w_bytes (je_w e')) = true /\
       json_decode pf (w_bytes (je_w e')) = RValue (jimg cfg t) [].
-  Proof.
+  Proof using ffmt_number ffmt_chars pf_radix. clear pf_ok. try clear fimg; try clear fbits_r; try clear ffmt; try clear pf.
     intros Hwf Hcv Hfin.
     assert (Hfin' : ignore_invalid cfg = true \/ tree_finite t = true).
     { destruct Hfin as [H|H]; [left; exact H|right]. apply tree_finite_cv. rewrite Hcv. exact H. }
@@ -1279,7 +1332,7 @@ Section JsonCompose.
       json_run cfg ffmt (jenc0 None) (flatten t') 0 = JRun e' None /\
       all_bytes (w_bytes (je_w e')) = true /\
       json_decode pf (w_bytes (je_w e')) = RValue (jimg cfg t') [].
-  Proof.
+  Proof using ffmt_number ffmt_chars pf_radix. clear pf_ok. try clear fimg; try clear fbits_r; try clear ffmt; try clear pf.
     intros cfg b v Hb Hsz Hd Hfin cs Hc.
     destruct (Cbor.ConformanceProofs.C05_accept b v Hb Hsz Hd) as (evs & t & Hrun & Hst & Hwf & Hcv).
     apply stream_is_flatten in Hst. subst evs.
@@ -1296,7 +1349,7 @@ Section JsonCompose.
       all_bytes (w_bytes (je_w e')) = true /\
       json_decode pf (w_bytes (je_w e')) = RValue (jimg cfg t') [] /\
       forall cs r, concat cs = b -> urun_chunks None cs = Ok r -> fst r = (flatten t', unilE).
-  Proof.
+  Proof using ffmt_number ffmt_chars pf_radix. clear pf_ok. try clear fimg; try clear fbits_r; try clear ffmt; try clear pf.
     intros cfg b v Hb Hsz Hz Hd Hfin.
     destruct (Ubjson.ConformanceProofs.C06_accept b v Hb Hsz Hz Hd) as (evs & t & p & Hrun & Hst & Hwf & Hcv).
     apply stream_is_flatten in Hst. subst evs.
@@ -1315,7 +1368,7 @@ Section JsonCompose.
       all_bytes (w_bytes (je_w e')) = true /\
       json_decode pf (w_bytes (je_w e')) = RValue (jimg cfg t') [] /\
       forall cs, concat cs = b -> exists p', jrun_chunks pf None cs = Ok (flatten t', jpnil, p').
-  Proof.
+  Proof using ffmt_number ffmt_chars pf_radix pf_ok. try clear fimg; try clear fbits_r; try clear ffmt; try clear pf.
     intros cfg b v Hb Hd Hfin. destruct (json_accept_tree b v Hb Hd) as (t & p & Hrun & Hwf & Hcv).
     destruct (json_target cfg t v Hwf Hcv Hfin) as (e' & E & Hob & D).
     exists t, p, e'. repeat (split; [assumption|]).
@@ -1330,7 +1383,7 @@ Section JsonCompose.
       json_run cfg ffmt (jenc0 None) (flatten t') 0 = JRun e' None /\
       jrun_parse pf None (w_bytes (je_w e')) = Ok (flatten t2, jpnil, p2) /\
       wf_tree t2 = true /\ cv (value_of t2) = jimg cfg t' /\ cv (value_of t') = v.
-  Proof.
+  Proof using ffmt_number ffmt_chars pf_radix pf_ok. try clear fimg; try clear fbits_r; try clear ffmt; try clear pf.
     intros cfg b v Hb Hd Hfin.
     destruct (C08_json_json cfg b v Hb Hd Hfin) as (t & p & e' & Hrun & Hwf & Hcv & E & Hob & D & _).
     destruct (json_accept_tree _ _ Hob D) as (t2 & p2 & Hrun2 & Hwf2 & Hcv2).
@@ -1344,7 +1397,7 @@ Section JsonCompose.
   Theorem C09_json_parser : forall b v, all_bytes b = true -> json_decode pf b = RValue v [] ->
     exists evs p, jrun_parse pf None b = Ok (evs, jpnil, p) /\ contract_ok evs = true /\
       forall cs, concat cs = b -> exists p', jrun_chunks pf None cs = Ok (evs, jpnil, p').
-  Proof.
+  Proof using pf_ok. clear ffmt_number ffmt_chars pf_radix. try clear fimg; try clear fbits_r; try clear ffmt; try clear pf.
     intros b v Hb Hd. destruct (json_accept_tree b v Hb Hd) as (t & p & Hrun & Hwf & _).
     exists (flatten t), p. split; [exact Hrun|]. split; [rewrite contract_flatten; exact Hwf|].
     eapply json_chunks_same. exact Hrun.
@@ -1358,7 +1411,7 @@ Section JsonCompose.
       Forall (fun t => contract_ok (flatten t) = true) ts /\
       map (fun t => cv (value_of t)) ts = vs /\
       forall cs, concat cs = b -> exists p', jrun_chunks pf None cs = Ok (flat_map flatten ts, jpnil, p').
-  Proof.
+  Proof using pf_ok. clear ffmt_number ffmt_chars pf_radix. try clear fimg; try clear fbits_r; try clear ffmt; try clear pf.
     intros fuel b vs Hb Hd.
     destruct (Json.SpecProofs.C04_accept_stream pf fuel b vs pf_ok Hd Hb) as (ts & p & Hrun & _ & Hwf & Hvs).
     exists ts, p. split; [exact Hrun|]. split.
@@ -1374,7 +1427,7 @@ Section JsonCompose.
     exists ts p out, jrun_parse pf None b = Ok (flat_map flatten ts, jpnil, p) /\
       cbor_encode (flat_map flatten ts) = Some out /\
       cbor_decode_all (S (length out)) out = Some vs.
-  Proof.
+  Proof using pf_ok. clear ffmt_number ffmt_chars pf_radix. try clear fimg; try clear fbits_r; try clear ffmt; try clear pf.
     intros fuel b vs Hb Hsz Hd Hlim.
     destruct (Json.SpecProofs.C04_accept_stream pf fuel b vs pf_ok Hd Hb) as (ts & p & Hrun & _ & Hwf & Hvs).
     assert (Hsm : forallb cbor_small ts = true).
@@ -1383,6 +1436,61 @@ Section JsonCompose.
     destruct (Cbor.RoundtripProofs.C07_cbor_stream ts Hwf Hsm) as (out & E & D).
     exists ts, p, out. rewrite Hvs in D. auto.
   Qed.
+
+  (* ---------- C17 for the JSON parser ---------- *)
+  (* After every document the reference accepts, Parse leaves the parser
+     idle: state stack empty, current state "start", literal buffer empty,
+     not inside an escape. *)
+  Section JsonIdle.
+    Import Json.SpecProofs.
+
+    Theorem C17_json_parser_idle : forall b v, all_bytes b = true -> json_decode pf b = RValue v [] ->
+      exists evs p, jrun_parse pf None b = Ok (evs, jpnil, p) /\
+        jp_cur p = jStart /\ jp_states p = [] /\ jp_lit p = [] /\ jp_inesc p = false /\
+        contract_ok evs = true.
+    Proof using pf_ok. clear ffmt_number ffmt_chars pf_radix. try clear fimg; try clear fbits_r; try clear ffmt; try clear pf.
+      intros b v Hb H. unfold json_decode in H.
+      destruct (json_ref pf (S (length b)) b) as [v0 r| | |] eqn:EJ; try discriminate.
+      destruct (skip_ws r) as [|x r''] eqn:ER; [|discriminate]. injection H as ->.
+      assert (Hcase : (is_cnum v = false \/ stop_next r = true) \/ (is_cnum v = true /\ r = [])).
+      { destruct r as [|y r0]; [destruct (is_cnum v); auto|].
+        left. right. cbn [skip_ws] in ER. cbn [stop_next].
+        destruct (is_ws y) eqn:W; [apply is_ws_is_stop, W|discriminate]. }
+      destruct Hcase as [Hend | [Hnum ->]].
+      - destruct (sim_all pf pf_ok _ _ _ _ EJ Hb Hend jparser0 (sink0 None) jStart
+                    (or_introl (conj eq_refl eq_refl)) (conj eq_refl eq_refl) eq_refl)
+          as (t & p' & (Gv & Gw & Gn) & Hbr & Hrun & (Hc & Hst & Hcl)).
+        assert (Hrun' : jsteps pf jparser0 (sink0 None) b p' (sapp (sink0 None) (flatten t)) []).
+        { destruct r as [|y r0]; [exact Hrun|].
+          eapply jsteps_snoc; [exact Hrun|discriminate|rewrite Hc; reflexivity| |apply mu_consume; cbn [length]; lia].
+          rewrite jstep_start by exact Hc. unfold step_value. rewrite trim_left_skip_ws, ER. reflexivity. }
+        exists (flatten t), p'. rewrite (jrun_parse_steps _ _ _ _ Hrun').
+        rewrite with_final_idle by assumption. rewrite s_log_sink0.
+        split; [reflexivity|]. split; [exact Hc|]. split; [exact Hst|].
+        split; [apply Hcl|]. split; [apply Hcl|].
+        rewrite contract_flatten. exact Gw.
+      - destruct v as [| | |n| |]; try discriminate.
+        destruct (json_ref_num_inv _ _ _ _ _ EJ) as (c & r0 & lit & isint & E0 & C7 & EN & EV).
+        destruct (json_number_inv _ _ _ _ EN) as (Er & Hns & Hde & Hshape).
+        rewrite app_nil_r in Er.
+        assert (Ht : trim_left b = c :: r0).
+        { apply trim_left_head; [exact E0|]. unfold is_space. unfold is_dig in C7. lia. }
+        destruct (trim_cons_length _ _ _ Ht) as [L0 Hne0].
+        pose proof (sv_num_head pf jparser0 (sink0 None) b jStart c r0 Ht C7) as Hst.
+        set (pn := jset_isdbl (jpush (jset_lit (jset_isdbl (jset_cur jparser0 jStart) false) []) jNumber) false) in *.
+        rewrite Er, (step_number_eof pf pn (sink0 None) lit eq_refl eq_refl Hns) in Hst.
+        assert (Hrun : jsteps pf jparser0 (sink0 None) b (jset_lit (jset_isdbl pn (has_de lit)) lit) (sink0 None) []).
+        { apply (vstep _ _ _ _ _ _ _ _ _ (or_introl (conj eq_refl eq_refl) : vstate jparser0 jStart) Hst). cbn [length]. lia. }
+        destruct (report_ok pf (sink0 None) lit isint n pf_ok EV eq_refl Hshape) as (k & z & Hrep & Hcn & Hok).
+        exists (flatten (TVal (SNum k z) false)), (jset_lit (jpop (jset_lit (jset_isdbl pn (has_de lit)) lit)) []).
+        rewrite (jrun_parse_steps _ _ _ _ Hrun).
+        unfold with_final, jfinalize. subst pn. unfold jparser0. jsimpl.
+        change (jNumber =? jNumber) with true. cbv iota. rewrite Hde, Hrep.
+        change (jisnil jpnil) with true. cbv iota. change (jStart =? jFailed) with false. cbv iota. jsimpl.
+        split; [reflexivity|]. split; [reflexivity|]. split; [reflexivity|]. split; [reflexivity|].
+        split; [reflexivity|]. rewrite contract_flatten. exact Hok.
+    Qed.
+  End JsonIdle.
 End JsonCompose.
 Print Assumptions json_out_bytes.
 Print Assumptions C01_json.
@@ -1395,3 +1503,127 @@ Print Assumptions C08_json_reparse.
 Print Assumptions C09_json_parser.
 Print Assumptions C09_json_parser_stream.
 Print Assumptions C08_json_cbor_stream.
+Print Assumptions C17_json_parser_idle.
+
+(* ====================================================================== *)
+(* Part 6: the hypotheses are satisfiable; the statements on concrete data  *)
+(* ====================================================================== *)
+Module ComposeExamples.
+  Import Json.EncProofs Json.RoundtripProofs.
+
+  (* toy float oracles: bits 0 -> "0", bits 1 -> "1e+06", anything else -> "2.5";
+     ParseFloat = length of the literal (capped, so that it is a 64-bit pattern) *)
+  Definition toy_ffmt := JsonRTExamples.toy_ffmt.
+  Definition toy_pf (l : bytes) : option Z := Some (Z.min (zlen l) 1000).
+  Definition toy_fimg := JsonRTExamples.toy_fimg.
+  Definition toy_fbits_r (w bits : Z) : Z := Z.min (zlen (radix_patch (toy_ffmt w bits))) 1000.
+
+  Lemma toy_number : forall w bits, w = 32 \/ w = 64 -> in_u w bits = true -> nonfinite w bits = false ->
+    exists isint, json_number (toy_ffmt w bits) = NumOk (toy_ffmt w bits) isint [] /\
+                  json_num_value toy_pf (toy_ffmt w bits) isint = Some (toy_fimg w bits).
+  Proof.
+    intros w bits _ _ _. unfold toy_ffmt, toy_fimg, JsonRTExamples.toy_ffmt, JsonRTExamples.toy_fimg.
+    destruct (bits =? 0); [|destruct (bits =? 1)]; eexists; split; reflexivity.
+  Qed.
+  Lemma toy_chars : forall w bits, w = 32 \/ w = 64 -> in_u w bits = true -> nonfinite w bits = false ->
+    Forall (fun c => In c fchars) (toy_ffmt w bits).
+  Proof.
+    intros w bits _ _ _. unfold toy_ffmt, JsonRTExamples.toy_ffmt.
+    destruct (bits =? 0); [|destruct (bits =? 1)];
+      repeat (apply Forall_cons;
+              [unfold fchars; cbn [In]; repeat (first [left; reflexivity | right])|]);
+      apply Forall_nil.
+  Qed.
+  Lemma toy_radix : forall w bits, w = 32 \/ w = 64 -> in_u w bits = true -> nonfinite w bits = false ->
+    snd (radix_scan (toy_ffmt w bits) 0) = true ->
+    toy_pf (radix_patch (toy_ffmt w bits)) = Some (toy_fbits_r w bits).
+  Proof. reflexivity. Qed.
+  Lemma toy_pf_ok : forall l z, toy_pf l = Some z -> in_u 64 z = true.
+  Proof.
+    intros l z H. unfold toy_pf in H. inversion H; subst. pose proof (Cbor.ConformanceProofs.zlen_nonneg l).
+    unfold in_u. change (2 ^ 64) with 18446744073709551616. lia.
+  Qed.
+
+  Notation toy_img := (json_img toy_ffmt toy_fimg (fun w bits => CF64 (toy_fbits_r w bits))).
+
+  Theorem C01_json_toy : forall cfg t, wf_tree t = true ->
+    (ignore_invalid cfg = true \/ tree_finite t = true) ->
+    exists e' evs t' p,
+      json_run cfg toy_ffmt (jenc0 None) (flatten t) 0 = JRun e' None /\
+      all_bytes (w_bytes (je_w e')) = true /\
+      jrun_parse toy_pf None (w_bytes (je_w e')) = Ok (evs, jpnil, p) /\
+      stream_tree evs = Some t' /\ wf_tree t' = true /\ cv (value_of t') = toy_img cfg t /\
+      forall cs, concat cs = w_bytes (je_w e') -> exists p', jrun_chunks toy_pf None cs = Ok (evs, jpnil, p').
+  Proof. exact (C01_json toy_ffmt toy_pf toy_fimg toy_fbits_r toy_number toy_chars toy_radix toy_pf_ok). Qed.
+
+  Theorem C08_cbor_json_toy : forall cfg b v, all_bytes b = true -> (zlen b <=? MaxInt64) = true ->
+    cbor_decode b = RValue v [] -> (ignore_invalid cfg = true \/ cv_finite v = true) ->
+    forall cs, concat cs = b ->
+    exists t' e', run_chunks None cs = Ok (flatten t', nilE) /\
+      wf_tree t' = true /\ cv (value_of t') = v /\
+      json_run cfg toy_ffmt (jenc0 None) (flatten t') 0 = JRun e' None /\
+      all_bytes (w_bytes (je_w e')) = true /\
+      json_decode toy_pf (w_bytes (je_w e')) = RValue (toy_img cfg t') [].
+  Proof. exact (C08_cbor_json toy_ffmt toy_pf toy_fimg toy_fbits_r toy_number toy_chars toy_radix). Qed.
+
+  Theorem C08_json_cbor_toy : forall b v, all_bytes b = true -> (zlen b <=? MaxInt64) = true ->
+    json_decode toy_pf b = RValue v [] ->
+    exists t' p out, jrun_parse toy_pf None b = Ok (flatten t', jpnil, p) /\
+      wf_tree t' = true /\ cv (value_of t') = v /\
+      cbor_encode (flatten t') = Some out /\ cbor_decode out = RValue v [] /\
+      forall cs, concat cs = b -> exists p', jrun_chunks toy_pf None cs = Ok (flatten t', jpnil, p').
+  Proof. exact (C08_json_cbor toy_pf toy_pf_ok). Qed.
+
+  (* a document with nesting, typed containers, a by-reference string, a float and an unsigned
+     integer above MaxInt64: UBJSON -> (parser) -> CBOR -> (parser) -> JSON -> (parser) -> UBJSON *)
+  Definition sample : tree :=
+    TObj (-1) BAny
+      [([97], false, TArr 2 BAny [TVal (SNum KInt8 (-5)) false; TVal (SStr [104; 105]) true]);
+       ([98], true, TXArr BInt16 [SNum KInt16 300; SNum KInt16 (-2)]);
+       ([99], false, TXObj BFloat32 [([100], SNum KFloat32 0)]);
+       ([101], false, TVal (SNum KUint64 18446744073709551615) false);
+       ([102], false, TXArr BBool [SBool true; SBool false])].
+
+  Definition cfg0 : jcfg := {| escape_html := false; ignore_invalid := false; explicit_radix := true |}.
+
+  Example pipeline :
+    wf_tree sample = true /\
+    match ubj_encode (flatten sample) with
+    | Some b1 =>
+        no_huge_zero_typed b1 = true /\ ubj_decode b1 = RValue (ubj_img sample) [] /\
+        match urun_chunks None [firstn 5 b1; skipn 5 b1] with
+        | Ok (evs1, e1, _) =>
+            e1 = unilE /\
+            match cbor_encode evs1 with
+            | Some b2 =>
+                cbor_decode b2 = RValue (ubj_img sample) [] /\
+                match run_chunks None [firstn 7 b2; skipn 7 b2] with
+                | Ok (evs2, e2) =>
+                    e2 = nilE /\
+                    match json_run cfg0 toy_ffmt (jenc0 None) evs2 0 with
+                    | JRun e' None =>
+                        let b3 := w_bytes (je_w e') in
+                        match jrun_chunks toy_pf None [firstn 9 b3; skipn 9 b3] with
+                        | Ok (evs3, e3, _) =>
+                            e3 = jpnil /\
+                            match ubj_encode evs3, stream_tree evs2 with
+                            | Some b4, Some t2 => ubj_decode b4 = RValue (toy_img cfg0 t2) []
+                            | _, _ => False
+                            end
+                        | _ => False
+                        end
+                    | _ => False
+                    end
+                | _ => False
+                end
+            | None => False
+            end
+        | _ => False
+        end
+    | None => False
+    end.
+  Proof. vm_compute. repeat split. Qed.
+End ComposeExamples.
+Print Assumptions ComposeExamples.C01_json_toy.
+Print Assumptions ComposeExamples.C08_cbor_json_toy.
+Print Assumptions ComposeExamples.C08_json_cbor_toy.
